@@ -130,4 +130,4 @@ for s in out:
 print("tabled",sum(e['count'] for e in tab.values()),"keys",len(tab),"unknown",len(unk),"findings",len(finds))
 for s in unk: print("UNK",s.loc(),s.kind,s.key[:200])
 for fid,s in finds: print("FINDING",fid,s.loc(),s.key)
-json.dump({"_doc":"reviewed may-panic sites reachable from the C10 root set; key = crate | root function | kind | callee/op | operand term (types instead of local names); 'at' is informational (position when reviewed)","sites":list(tab.values())},open('/verif/tables/panic_sites.json','w'),indent=1)
+json.dump({"_doc":"reviewed may-panic sites reachable from the C10 root set; key = crate | root function | kind | callee/op | operand term (types instead of local names); 'at' is informational (position when reviewed)","sites":sorted(tab.values(), key=lambda e: e["key"])},open('/verif/tables/panic_sites.json','w'),indent=1)
